@@ -13,6 +13,14 @@
 //       queries: comma separated "a:b"; each is asked through Variable::hasEquivalentVariable(.., true),
 //       hasEquivalentVariable(.., false) and AnalyserModel::areEquivalentVariables, in the given order.
 //       output: "<t d c>,<t d c>,... adj=<live equivalentVariable(i) lists, sorted> cc=<BFS component labels> am=<type>"
+//   H <n> <layout>:<c0,c1,...> <events>
+//       a history: edits interleaved with questions.  events, comma separated: "a-b" addEquivalence,
+//       "a/b" Variable::removeEquivalence, "rK" vK->removeAllEquivalences(), "xK" destroy variable K,
+//       "?a:b" ask (va, vb) through hasEquivalentVariable(.., true), hasEquivalentVariable(.., false),
+//       libcellml::areEquivalentVariables (utilities) and AnalyserModel::areEquivalentVariables on an
+//       AnalyserModel obtained AFTER the last edit (it is documented as a snapshot), and compute the
+//       driver's own BFS verdict over equivalentVariable(i) lists at that moment.
+//       output: "<t d u c B>,... adj=<final lists> cc=<final labels> am=<number of AnalyserModels taken>"
 //   K <hex a> <hex b>
 //       the cache key computed by the library for the two addresses (guarded hook, no dereference).
 //       output: "<hex first> <hex second>"
@@ -24,6 +32,8 @@
 #include <sstream>
 
 #include <libcellml>
+
+#include "utilities.h"
 
 #include "forkrun.hpp"
 
@@ -207,6 +217,227 @@ static std::string graphCase(const std::vector<std::string> &f)
     return o.str();
 }
 
+struct World
+{
+    size_t n = 0;
+    char layout = 'I';
+    libcellml::ModelPtr model;
+    std::vector<libcellml::ComponentPtr> comps;
+    std::vector<size_t> compOf;
+    std::vector<libcellml::VariablePtr> vars;
+};
+
+static bool makeWorld(World &w, const std::string &ns, const std::string &layoutSpec)
+{
+    w.n = std::stoul(ns);
+    w.layout = layoutSpec[0];
+    std::vector<std::string> cs = splitws(layoutSpec.substr(2), ',');
+    if (cs.size() != w.n) {
+        return false;
+    }
+    w.model = libcellml::Model::create("m");
+    w.compOf.resize(w.n);
+    w.vars.resize(w.n);
+    for (size_t k = 0; k < w.n; ++k) {
+        w.compOf[k] = std::stoul(cs[k]);
+        while (w.comps.size() <= w.compOf[k]) {
+            auto c = libcellml::Component::create("c" + std::to_string(w.comps.size()));
+            w.model->addComponent(c);
+            w.comps.push_back(c);
+        }
+    }
+    for (size_t k = 0; k < w.n; ++k) {
+        w.vars[k] = libcellml::Variable::create("v" + std::to_string(k));
+        if (w.layout == 'V') {
+            w.vars[k]->setUnits("dimensionless");
+            w.vars[k]->setInterfaceType("public");
+        }
+        w.comps[w.compOf[k]]->addVariable(w.vars[k]);
+    }
+    return true;
+}
+
+static void rebuildMath(World &w)
+{
+    if (w.layout != 'V') {
+        return;
+    }
+    std::vector<std::string> math(w.comps.size());
+    for (size_t k = 0; k < w.n; k += 3) {
+        if (w.vars[k] != nullptr) {
+            math[w.compOf[k]] += "<apply><eq/><ci>v" + std::to_string(k) + "</ci><cn cellml:units=\"dimensionless\">1</cn></apply>";
+        }
+    }
+    for (size_t c = 0; c < w.comps.size(); ++c) {
+        w.comps[c]->setMath(math[c].empty() ? std::string() : std::string(MATH_HEAD) + math[c] + "</math>");
+    }
+}
+
+// BFS over equivalentVariable(i) lists, on raw object identity
+static bool bfsConnected(const libcellml::VariablePtr &a, const libcellml::VariablePtr &b)
+{
+    std::vector<libcellml::VariablePtr> seen {a};
+    for (size_t i = 0; i < seen.size(); ++i) {
+        if (seen[i] == b) {
+            return true;
+        }
+        for (size_t j = 0; j < seen[i]->equivalentVariableCount(); ++j) {
+            auto e = seen[i]->equivalentVariable(j);
+            if (e != nullptr && std::find(seen.begin(), seen.end(), e) == seen.end()) {
+                seen.push_back(e);
+            }
+        }
+    }
+    return false;
+}
+
+static std::string finalDump(World &w, std::string &err)
+{
+    std::ostringstream o;
+    std::map<const libcellml::Variable *, size_t> indexOf;
+    for (size_t k = 0; k < w.n; ++k) {
+        if (w.vars[k] != nullptr) {
+            indexOf[w.vars[k].get()] = k;
+        }
+    }
+    std::vector<std::vector<size_t>> adj(w.n);
+    o << " adj=";
+    for (size_t k = 0; k < w.n; ++k) {
+        if (w.vars[k] == nullptr) {
+            continue;
+        }
+        for (size_t i = 0; i < w.vars[k]->equivalentVariableCount(); ++i) {
+            auto e = w.vars[k]->equivalentVariable(i);
+            auto it = indexOf.find(e.get());
+            if (e == nullptr || it == indexOf.end()) {
+                err = "FOREIGN(equivalentVariable returned null or an unknown object)";
+                return "";
+            }
+            adj[k].push_back(it->second);
+        }
+        std::sort(adj[k].begin(), adj[k].end());
+        o << k << ':';
+        for (size_t i = 0; i < adj[k].size(); ++i) {
+            o << (i ? "." : "") << adj[k][i];
+        }
+        o << ';';
+    }
+    std::vector<long> label(w.n, -1);
+    for (size_t k = 0; k < w.n; ++k) {
+        if (w.vars[k] == nullptr || label[k] >= 0) {
+            continue;
+        }
+        std::queue<size_t> todo;
+        todo.push(k);
+        label[k] = long(k);
+        while (!todo.empty()) {
+            size_t x = todo.front();
+            todo.pop();
+            for (size_t y : adj[x]) {
+                if (label[y] < 0) {
+                    label[y] = long(k);
+                    todo.push(y);
+                }
+            }
+        }
+    }
+    o << " cc=";
+    for (size_t k = 0; k < w.n; ++k) {
+        o << (k ? "," : "");
+        if (w.vars[k] == nullptr) {
+            o << 'x';
+        } else {
+            o << label[k];
+        }
+    }
+    return o.str();
+}
+
+static std::string historyCase(const std::vector<std::string> &f)
+{
+    if (f.size() < 4) {
+        return "BADCASE";
+    }
+    World w;
+    if (!makeWorld(w, f[1], f[2])) {
+        return "BADCASE";
+    }
+    libcellml::AnalyserPtr analyser;
+    libcellml::AnalyserModelPtr am;
+    bool dirty = true;
+    size_t taken = 0;
+    std::ostringstream o;
+    bool first = true;
+    if (f[3] != "-") {
+        for (const auto &ev : splitws(f[3], ',')) {
+            if (ev[0] == '?') {
+                auto ab = splitws(ev.substr(1), ':');
+                const auto &va = w.vars[std::stoul(ab[0])];
+                const auto &vb = w.vars[std::stoul(ab[1])];
+                if (va == nullptr || vb == nullptr) {
+                    return "BADCASE(query on a destroyed variable)";
+                }
+                if (dirty) {
+                    rebuildMath(w);
+                    analyser = libcellml::Analyser::create();
+                    if (w.layout != 'I') {
+                        analyser->analyseModel(w.model);
+                    }
+                    am = analyser->model();
+                    if (am == nullptr) {
+                        return "NOANALYSERMODEL";
+                    }
+                    dirty = false;
+                    ++taken;
+                }
+                if (!first) {
+                    o << ',';
+                }
+                first = false;
+                o << (va->hasEquivalentVariable(vb, true) ? '1' : '0')
+                  << (va->hasEquivalentVariable(vb, false) ? '1' : '0')
+                  << (libcellml::areEquivalentVariables(va, vb) ? '1' : '0')
+                  << (am->areEquivalentVariables(va, vb) ? '1' : '0')
+                  << (bfsConnected(va, vb) ? '1' : '0');
+                continue;
+            }
+            dirty = true;
+            // the previous Analyser (its issues, its AnalyserModel) may hold shared_ptrs to variables: let go of it
+            am.reset();
+            analyser.reset();
+            if (ev[0] == 'x') {
+                size_t k = std::stoul(ev.substr(1));
+                if (w.vars[k] != nullptr) {
+                    std::weak_ptr<libcellml::Variable> wk = w.vars[k];
+                    w.comps[w.compOf[k]]->removeVariable(w.vars[k]);
+                    w.vars[k].reset();
+                    if (!wk.expired()) {
+                        return "NOTEXPIRED";
+                    }
+                }
+            } else if (ev[0] == 'r') {
+                size_t k = std::stoul(ev.substr(1));
+                if (w.vars[k] != nullptr) {
+                    w.vars[k]->removeAllEquivalences();
+                }
+            } else if (ev.find('/') != std::string::npos) {
+                auto ab = splitws(ev, '/');
+                libcellml::Variable::removeEquivalence(w.vars[std::stoul(ab[0])], w.vars[std::stoul(ab[1])]);
+            } else {
+                auto ab = splitws(ev, '-');
+                libcellml::Variable::addEquivalence(w.vars[std::stoul(ab[0])], w.vars[std::stoul(ab[1])]);
+            }
+        }
+    }
+    std::string err;
+    std::string dump = finalDump(w, err);
+    if (!err.empty()) {
+        return err;
+    }
+    o << dump << " am=" << taken;
+    return o.str();
+}
+
 static std::string oneCase(const std::string &line)
 {
     auto f = splitws(line, ' ');
@@ -215,6 +446,9 @@ static std::string oneCase(const std::string &line)
     }
     if (f[0] == "G") {
         return graphCase(f);
+    }
+    if (f[0] == "H") {
+        return historyCase(f);
     }
     return "BADCASE";
 }
